@@ -60,10 +60,63 @@ def allocateFraction? (valPower totalPreviousPower : Int) : Option (Option Int) 
 /-- x/oracle/keeper/common/types.go: BigIntList.Median, even length: `Div(sum, big.NewInt(2))` -/
 def medianDivisor : Int := 2
 
-/-- x/gov EndBlocker → Tally → x/dogfood/keeper/impl_sdk.go: TotalBondedTokens: `panic("unimplemented…")`.
-`endingProposals` = number of proposals whose voting period ends in this block. -/
-def govEndBlock (endingProposals : Nat) : Outcome :=
-  if endingProposals = 0 then .ok else .halt
+/-! ### x/gov EndBlocker → Tally (cosmos-sdk v0.47 x/gov/keeper/tally.go) over x/dogfood as staking keeper -/
+
+/-- sdk.DefaultPowerReduction of this chain (evmos: 10^18) -/
+def powerReduction : Int := 10 ^ 18
+
+/-- a bonded validator as the tally sees it -/
+structure GovVal where
+  power : Int           -- x/dogfood vote power applied at the last epoch (>= 1 for every member of the set)
+  operatorShares : Int  -- raw DelegatorShares x/operator derives from the operator's *current* USD value (0 is possible)
+  voted : Bool
+deriving DecidableEq, Repr
+
+/-- x/dogfood/keeper/impl_sdk.go: IterateBondedValidatorsByPower: `val.Tokens = TokensFromConsensusPower(v.Power)` -/
+def govTokens (v : GovVal) : Int := v.power * powerReduction
+/-- … and, as repaired, `val.DelegatorShares = val.Tokens.ToLegacyDec()` (raw Dec) -/
+def govShares (v : GovVal) : Int := govTokens v * decOne
+/-- before the repair the shares were the ones x/operator filled in -/
+def govSharesPre (v : GovVal) : Int := v.operatorShares
+
+/-- one voting validator: `sharesAfterDeductions.MulInt(val.BondedTokens).Quo(val.DelegatorShares)`; the
+deductions are zero because IterateDelegations (repaired: a no-op) never reports a delegation.
+`none` = LegacyDec.Quo panicked. -/
+def tallyVal (shares tokens : Int) : Option Int := decQuo? (shares * tokens) shares
+
+/-- the loop over `currValidators`: total voting power, or `none` if a Quo panicked -/
+def govTally (shareOf : GovVal → Int) : List GovVal → Option Int
+  | [] => some 0
+  | v :: rest =>
+    if v.voted then
+      match tallyVal (shareOf v) (govTokens v), govTally shareOf rest with
+      | some w, some t => some (w + t)
+      | _, _ => none
+    else govTally shareOf rest
+
+/-- x/dogfood TotalBondedTokens as repaired: last total power times the power reduction -/
+def totalBondedTokens (totalPower : Int) : Int := totalPower * powerReduction
+
+/-- the quorum: `if TotalBondedTokens.IsZero() { return }` then `totalVotingPower.Quo(NewDecFromInt(TotalBondedTokens))` -/
+def govQuorum? (totalVoting totalPower : Int) : Option (Option Int) :=
+  if totalBondedTokens totalPower = 0 then some none
+  else (decQuo? totalVoting (totalBondedTokens totalPower * decOne)).map some
+
+/-- one proposal whose voting period ends in this block -/
+def govProposalEnd (totalPower : Int) (vals : List GovVal) : Outcome :=
+  match govTally govShares vals with
+  | none => .halt
+  | some t => match govQuorum? t totalPower with
+    | none => .halt
+    | some _ => .ok
+
+/-- the gov EndBlocker over all proposals ending now -/
+def govEndBlock (totalPower : Int) (ending : List (List GovVal)) : Outcome :=
+  if ending.any (fun vals => govProposalEnd totalPower vals == .halt) then .halt else .ok
+
+/-- the EndBlocker before the repair: TotalBondedTokens / IterateDelegations `panic("unimplemented on this keeper")`
+as soon as one proposal is tallied -/
+def govEndBlockPre (ending : List (List GovVal)) : Outcome := if ending.isEmpty then .ok else .halt
 
 /-- one stored task result as x/avs AfterEpochEnd sees it after the protobuf round trip:
 an empty signature reads back as nil -/
@@ -107,7 +160,8 @@ def dogfoodEndBlock (usdValueInt : Int) : Outcome :=
 /-- the block-relevant part of the state -/
 structure St where
   slashedOperatorValue : Option Int   -- Some v: a slash for an operator of total value v arrives in BeginBlock
-  endingProposals : Nat
+  endingProposals : List (List GovVal) -- per proposal whose voting period ends now: the bonded validators with their votes
+  lastTotalPower : Int                -- x/dogfood LastTotalPower
   avsGroups : List TaskGroup          -- groups whose statistical epoch ends in this block
   maxAmountTimesPrice : Int           -- largest per-asset amount·price of any operator (epoch end)
   maxUsdValueInt : Int                -- largest operator USD value (integer part)
@@ -123,11 +177,11 @@ def block (s : St) : Outcome :=
   seqO (usdValueUpdate s.maxAmountTimesPrice)
   (seqO (avsEpochEnd s.avsGroups)
   (seqO (slashStep s.slashedOperatorValue)
-  (seqO (dogfoodEndBlock s.maxUsdValueInt) (govEndBlock s.endingProposals))))
+  (seqO (dogfoodEndBlock s.maxUsdValueInt) (govEndBlock s.lastTotalPower s.endingProposals))))
 
-/-- the states excluded by the `_partial` theorem, i.e. the negation of the three recorded open defects (F-04b and F-11b were repaired: a slash of a valueless operator and an unsigned task-result group are logged and skipped) -/
+/-- the states excluded by the `_partial` theorem, i.e. the negation of the two recorded open defects F-11f / F-11g, plus the validator-set invariant the gov tally relies on (F-04b, F-11a and F-11b were repaired: a slash of a valueless operator and an unsigned task-result group are logged and skipped, the gov tally is implemented) -/
 structure Inv (s : St) : Prop where
-  noTally : s.endingProposals = 0                                          -- ¬F-11a
+  valPowers : ∀ vals ∈ s.endingProposals, ∀ v ∈ vals, 1 ≤ v.power          -- kept by x/dogfood: EndBlock drops keys with power < 1
   powerFits : s.maxUsdValueInt ≤ int64Max                                  -- ¬F-11f
   usdFits : decOverflows (s.maxAmountTimesPrice * decOne) = false          -- ¬F-11g
 
